@@ -45,6 +45,7 @@ struct vf_fd {
     int head, cnt;
     uint64_t counter;                /* eventfd counter / timer expirations */
     bool ready;                      /* user / signal / inotify / pidfd readiness (set by the harness) */
+    bool hup;                        /* user descriptor: the peer wrote and hung up - reported as EPOLLIN|EPOLLHUP */
     bool ep_in;                      /* registered in the epoll interest list */
     bool ep_disabled;                /* EPOLLONESHOT already reported */
     struct epoll_event ev;
